@@ -75,7 +75,13 @@ func globMatch(pat, s string) bool {
 }
 
 func (k *KnownFinding) matches(prop string, c *Candidate) bool {
-	if k.Property != prop || !globMatch(k.Harness, c.Harness) {
+	propOK := k.Property == "*"
+	for _, p := range strings.Split(k.Property, ",") {
+		if strings.TrimSpace(p) == prop {
+			propOK = true
+		}
+	}
+	if !propOK || !globMatch(k.Harness, c.Harness) {
 		return false
 	}
 	if k.Kind != "" && k.Kind != c.Kind {
